@@ -105,6 +105,37 @@ def gc (ws : List String) : Option String :=
     | .error e => some (renderGetErr active e)
   | _ => none
 
+/-- file word: `u` | `c:<valid>:<inValidity>:<isd1>:<ok0>:<ok1>:<insertFails>:<dup>` -/
+def parseFile (act1 act2 : ActiveRes) (w : String) : Option FileIn :=
+  if w == "u" then
+    some ⟨false, false, false, .notFound, false, false, false, false⟩
+  else match w.splitOn ":" with
+  | ["c", v, iv, isd1, o0, o1, inf, d] => do
+    let isd1 ← parseBool isd1
+    some { readable := true, chainValid := (← parseBool v), inValidity := (← parseBool iv),
+           active := if isd1 then act1 else act2, ok0 := (← parseBool o0), ok1 := (← parseBool o1),
+           insertFails := (← parseBool inf), duplicate := (← parseBool d) }
+  | _ => none
+
+def renderFileRes : FileRes → String
+  | .ignored => "I" | .loaded => "L" | .abort => "A"
+
+/-- `lc <active of ISD 1: now failL failP n trcinfo*> <nfiles> <file>*`; chains of another ISD
+find no TRC -/
+def lc (ws : List String) : Option String := do
+  let (act, act2, ws) ← match ws with
+    | now :: fl :: fp :: ws => do
+      let now ← now.toInt?
+      let fl ← parseBool fl
+      let fp ← parseBool fp
+      let (store, ws) ← takeCounted parseTrcInfo ws
+      some (activeOfStore store fl fp now, activeOfStore [] fl fp now, ws)
+    | _ => none
+  let (files, ws) ← takeCounted (parseFile act act2) ws
+  if !ws.isEmpty then none else
+  let r := loadChains files
+  some (if r.isEmpty then "-" else String.join (r.map renderFileRes))
+
 def handle : List String → String
   | ["cert", w] =>
     match parseCert w with
@@ -120,6 +151,7 @@ def handle : List String → String
     | some (a, []) => renderActive a
     | _ => "bad-op"
   | "gc" :: ws => (gc ws).getD "bad-op"
+  | "lc" :: ws => (lc ws).getD "bad-op"
   | _ => "bad-op"
 
 end Driver.Chain
